@@ -81,6 +81,7 @@ def execute(record, ctx):
     vh, vw = M.view_shape(area)
     anchor = M.view_anchor(area)
     sample = None
+    fan = None
     for i, op in enumerate(record['ops']):
         ctx.ticks += 1
         kind = op[0]
@@ -195,7 +196,9 @@ def execute(record, ctx):
 
                 num = np.zeros((vh, vw), dtype=int)
                 den = np.zeros((vh, vw), dtype=int)
-                for ray in compute_rays_fancy(pos, grid.area):
+                if fan is None:
+                    fan = compute_rays_fancy(pos, grid.area)  # once per run (anchor and view shape are fixed)
+                for ray in fan:
                     light = True
                     for p in ray:
                         num[p.y, p.x] += int(light)
